@@ -42,7 +42,8 @@ class Spec(core.PropSpec):
         pre = []
         for _ in range(rf.choice([1, 1, 2, 3])):
             pre.append(dict(k=rf.randint(1, 4), field=rf.choice(["start_epoch", "start_update", "start_sample"])))
-        return dict(world=w, preemptions=pre, all_checkpoints=rf.random() < 0.5)
+        return dict(world=w, preemptions=pre, all_checkpoints=rf.random() < 0.5, foreign_epoch=rf.choice([None, None, 97, 0]),
+                    reiterate=rf.random() < 0.25)
 
     def shrink_candidates(self, plan):
         if plan.get("all_checkpoints"):
@@ -70,6 +71,8 @@ class Spec(core.PropSpec):
             out.ev("uninterrupted-raised", type(e).__name__)
             out.rejected = True  # C04/C05 report this
             return out
+        if any(c["kind"] == "epochperm" for c in w["configs"]):
+            ref = T.reference(w, side_epochs=T.side_epochs_of(full))
         if not term or full != ref:
             # the uninterrupted run itself is wrong: that is C04/C05's finding; a suffix oracle built on it is meaningless
             out.ev("uninterrupted-run-deviates-from-reference")
@@ -106,7 +109,16 @@ class Spec(core.PropSpec):
             if len(att) > 1:
                 out.count("fault:preemption_in_chain")
             try:
-                res, term = T.run_sampler(w, start={field: val}, cap=len(suffix) + 50)
+                res, term = T.run_sampler(w, start={field: val}, cap=len(suffix) + 50, foreign_epoch=plan.get("foreign_epoch"))
+                res = list(res)
+                if plan.get("reiterate") and term:
+                    s_obj, s_log = T.run_sampler.last
+                    res2, term2 = T.run_sampler(w, cap=len(suffix) + 50, sampler=s_obj, log=s_log)
+                    out.count("fault:reiteration_of_resumed_object")
+                    if not term2 or list(res2) != res:
+                        d2 = T.first_diff(list(res2), suffix)
+                        if d2 or not term2:
+                            out.violate("C06:second-pass-of-resumed-run-differs", field, f"k={k} {field}={val}: {d2 or 'does not terminate'}")
             except T.Rejected as e:
                 out.count("resume_refused_by_constructor")
                 out.ev("refused", k, field)
